@@ -147,8 +147,18 @@ pub fn units(tier: Tier, seed: u64) -> Vec<UnitSpec> {
             u.push(UnitSpec::Special { name: name.into(), depth: *d });
         }
     }
+    // descriptor TEXT is not limited to 65535 bytes: 1 000 000 `[` (one stack frame per `[` overflows an 8 MiB stack at
+    // this profile's frame sizes, 65 534 do not) - missed seeded change C16-18
     for d in [255u32, 256, 65_534] {
         u.push(UnitSpec::Special { name: "deep-array-descriptor".into(), depth: d });
+    }
+    for d in [70_000u32, 1_000_000] {
+        u.push(UnitSpec::Special { name: "deep-desc-text".into(), depth: d });
+    }
+    // a CONSTANT_Class naming an array type with 255 / 256 / 257 / 512 dimensions (the dimension count is a u8 somewhere:
+    // multiples of 256 wrap to 0) - missed seeded change C16-17
+    for d in [255u32, 256, 257, 512] {
+        u.push(UnitSpec::Special { name: "array-class-dims".into(), depth: d });
     }
     // an invokeinterface whose descriptor has 127 / 128 / 255 / 256 / 1000 two-slot arguments (the writer derives the
     // count byte from the descriptor)
@@ -434,6 +444,19 @@ fn special(name: &str, depth: u32) -> SeedInput {
             let mut sf = vec![];
             push_u16(&mut sf, 11);
             class_seed(assemble(&cp, 12, 2, 4, &f, 1, &m, 1, &attr(10, &sf), 1), vec![])
+        }
+        "deep-desc-text" => {
+            let mut d = vec![b'['; depth as usize];
+            d.push(b'I');
+            text_seed(Kind::Desc, d, 0)
+        }
+        "array-class-dims" => {
+            // 1 "A" 2 Class1 3 "java/lang/Object" 4 Class3 5 "NestHost" 6 "[[[..I" 7 Class6
+            let name = format!("{}I", "[".repeat(depth as usize));
+            let cp = vec![e_utf8("A"), e_class(1), e_utf8("java/lang/Object"), e_class(3), e_utf8("NestHost"), e_utf8(&name), e_class(6)];
+            let mut body = vec![];
+            push_u16(&mut body, 7);
+            class_seed(assemble(&cp, 8, 2, 4, &[], 0, &[], 0, &attr(5, &body), 1), vec![])
         }
         "max-labels" => {
             // 1 "A" 2 Class1 3 "java/lang/Object" 4 Class3 5 "m" 6 "()V" 7 "Code" 8 "LineNumberTable"
